@@ -331,6 +331,27 @@ static int rec_io = 0;
 #define MAXOPEN 256
 static FILE *open_f[MAXOPEN];
 static char *open_p[MAXOPEN];
+#ifdef DRV_FAULT
+/* ---- allocation fault injection (variant "fault"): the library sources are compiled with
+   -Dmalloc=lc_malloc -Dcalloc=lc_calloc -Drealloc=lc_realloc -Dstrdup=lc_strdup, so exactly the
+   library's own requests come through here; the DRV_FAULT_K-th one returns NULL ---- */
+static long fault_k = -1, alloc_count = 0; static int fault_seen = 0;
+static int fail_now(void) { alloc_count++; if(alloc_count == fault_k) { fault_seen = 1; return 1; } return 0; }
+void *lc_malloc(size_t n) { return fail_now() ? NULL : malloc(n); }
+void *lc_calloc(size_t a, size_t b) { return fail_now() ? NULL : calloc(a, b); }
+void *lc_realloc(void *q, size_t n) { return fail_now() ? NULL : realloc(q, n); }
+char *lc_strdup(const char *t) { return fail_now() ? NULL : strdup(t); }
+#include <setjmp.h>
+static jmp_buf recover_env; static int recover_mode = 0; static long fault_k2 = -1;
+static void fatal_handler(const char *msg)
+{
+  (void)msg;
+  fprintf(out, "FATAL fault_seen=%d at_alloc=%ld\n", fault_seen, alloc_count);
+  fflush(out);
+  if(recover_mode && fault_k2 >= 0) longjmp(recover_env, 1);   /* a handler that recovers instead of exiting */
+  _exit(0);
+}
+#endif
 static locale_t thread_loc; static char *thread_name, *glob_name;
 static long long wdev_cap = -1; static int wdev_fsync_fails, wdev_close_fails, wdev_open_fails, wdev_active;
 static FILE *wdev_stream;
@@ -922,6 +943,11 @@ int main(int argc, char **argv)
   if(!out) { perror("out"); return 2; }
   cap_init();
   signal(SIGXFSZ, SIG_IGN);
+#ifdef DRV_FAULT
+  if(getenv("DRV_FAULT_K")) fault_k = atol(getenv("DRV_FAULT_K"));
+  if(getenv("DRV_FAULT_K2")) { fault_k2 = atol(getenv("DRV_FAULT_K2")); recover_mode = 1; }
+  config_set_fatal_error_func(fatal_handler);
+#endif
 
   FILE *sf = fopen(argv[1], "r");
   if(!sf) { perror(argv[1]); return 2; }
@@ -930,6 +956,15 @@ int main(int argc, char **argv)
   char *line = NULL;
   size_t cap = 0;
   ssize_t len;
+#ifdef DRV_FAULT
+  if(recover_mode && setjmp(recover_env))
+  {
+    /* recovered from the first failure: abandon the configuration, run the script again with the second fault */
+    fputs("RECOVERED\n", out);
+    live = 0; fault_seen = 0; alloc_count = 0; fault_k = fault_k2; fault_k2 = -1;
+    rewind(sf);
+  }
+#endif
   while((len = getline(&line, &cap, sf)) >= 0)
   {
     while(len > 0 && (line[len - 1] == '\n' || line[len - 1] == '\r')) line[--len] = 0;
@@ -949,6 +984,9 @@ int main(int argc, char **argv)
   free(multi_paths);
   for(int i = 0; i < fail_n; i++) free(fail_msgs[i]);
   free(fail_msgs);
+#ifdef DRV_FAULT
+  fprintf(out, "ALLOCS %ld fault_seen=%d\n", alloc_count, fault_seen);
+#endif
   fflush(out);
   return 0;
 }
